@@ -194,3 +194,25 @@ Definition leafbox_sr (bs : list N) : res (leafval * Z * bool) :=
       else Err
   | (Err, _) => Err | (Panic, _) => Panic | (OutOfFuel, _) => OutOfFuel
   end.
+
+(* ------------------------------------------------------------------ the leaf pairs as the leaf decoders of the C04 box loops *)
+(* DecodeBox / DecodeBoxSR dispatch: trun, senc and mdat go to the pair models above (the loops only need Size() of the decoded
+   box), every other leaf type to the C04 standard leaves.  Model costs are not charged on the SliceReader path. *)
+Definition wrap_r {A} (size : A -> N) (p : res A * ist) : res N * ist := (do v <- fst p; Ok (size v), snd p).
+Definition wrap_sr {A} (size : A -> N) (r : res (A * rstate)) (s : sst) : res N * sst :=
+  match r with
+  | Ok (v, r') => (Ok (size v), mkS r' (scost s))
+  | Err => (Err, s) | Panic => (Panic, s) | OutOfFuel => (OutOfFuel, s)
+  end.
+
+Definition pair_r (h : hdr) (s : ist) : res N * ist :=
+  if eqb_name (hname h) name_trun then wrap_r trun_size (trun_r h s)
+  else if eqb_name (hname h) name_senc then wrap_r senc_size (senc_r h s)
+  else if eqb_name (hname h) name_mdat then wrap_r mdatv_size (mdat_r h s)
+  else std_r h s.
+Definition pair_sr (h : hdr) (s : sst) : res N * sst :=
+  if eqb_name (hname h) name_trun then wrap_sr trun_size (trun_sr h (sr s)) s
+  else if eqb_name (hname h) name_senc then wrap_sr senc_size (senc_sr h (sr s)) s
+  else if eqb_name (hname h) name_mdat then wrap_sr mdatv_size (mdat_sr h (sr s)) s
+  else std_sr h s.
+Definition pair_leaves : leafdec := mkLD std_kind pair_r pair_sr.
